@@ -395,6 +395,11 @@ Plan gen_C02(Gen &g, Plan p)
     p.root = gen_tree(g, false);
     int maxp = g.thorough ? (g.r.chance(1, 8) ? 24 : 10) : 8;
     int np = (int)g.r.range(2, g.r.chance(1, 4) ? maxp : 4);
+    if (g.r.chance(1, 10)) {
+        // one message is stuck in a handler for seconds while the other threads queue up at the lock
+        Node sl = mk(g, "slowonce", 1, (int)g.r.range(3200, 6000));
+        p.root.kids.insert(p.root.kids.begin() + g.r.below(p.root.kids.size() + 1), sl);
+    }
     bool crowd = g.r.chance(1, g.thorough ? 20 : 60);
     if (crowd) {
         // far more threads than cores, one or two messages each, through a thread-tagging formatter:
@@ -614,8 +619,8 @@ Plan gen_C04(Gen &g, Plan p)
         spawn_all();
         p.main_ops.push_back(mkop("spawn", np + 1));
         maybe_sleep();
+        maybe_gate(); // before anything on the main thread that may itself have to wait for the backlog
         p.main_ops.push_back(mkop("destroy_app"));
-        maybe_gate();
         p.main_ops.push_back(mkop("join", -1));
         main_logs(0, 2);
         p.main_ops.push_back(mkop("destroy"));
